@@ -277,6 +277,7 @@ func emitEnums(dir string) error {
 		}
 		fmt.Fprintf(&gb, "\t\t{Pkg: %q, Name: %q, Bitmask: %v, Bound: %d,\n", e.pkg, e.name, e.bitmask, e.bound)
 		fmt.Fprintf(&gb, "\t\t\tMarshal: func(v uint64) (string, error) { b, err := %s.%s(v).MarshalText(); return string(b), err },\n", e.pkg, e.name)
+		fmt.Fprintf(&gb, "\t\t\tMarshalRaw: func(v uint64) ([]byte, error) { return %s.%s(v).MarshalText() },\n", e.pkg, e.name)
 		fmt.Fprintf(&gb, "\t\t\tUnmarshal: func(s string) (uint64, error) { e := %s.%s(0xAAAAAAAAAAAAAAAA); err := e.UnmarshalText([]byte(s)); return uint64(e), err },\n", e.pkg, e.name)
 		gb.WriteString("\t\t\tConsts: []enumConst{")
 		cv := map[string]uint64{}
